@@ -318,7 +318,9 @@ def generate_plans(ctx):
     for n in range(2):
         jobs.append(("volume", dict(cfg="GenIndexVol.cfg", simulate=10 if q else 60, depth=12)))
     jobs.append(("bfs", dict(cfg="GenIndexBfs.cfg" if q else "GenIndexBfsT.cfg")))
-    jobs.append(("iter", dict(cfg="GenIndexIter.cfg")))      # every transition of a one-index iterator state graph
+    jobs.append(("iter", dict(cfg="GenIndexIter.cfg")))
+    # every index of 5+ Streams over {empty, empty Block, Block} and of 5+ all-empty / non-empty Record groups
+    jobs.append(("family", dict(cfg="GenIndexFam.cfg" if q else "GenIndexFamT.cfg")))      # every transition of a one-index iterator state graph
     seeds = [ctx.rng.randrange(1, 1 << 30) for _ in jobs]
     def one(a):
         (label, kw), seed = a
@@ -357,14 +359,14 @@ def run(ctx):
     # (R) index histories
     groups = {}
     for label, r in gen:
-        ctx.add_tlc("GenIndex(%s)" % label, r, exhaustive=(label in ("bfs", "iter")) or None)
+        ctx.add_tlc("GenIndex(%s)" % label, r, exhaustive=(label in ("bfs", "iter", "family")) or None)
         groups.setdefault(label, []).extend(plans_from_tlc(r.out))
     if len(groups.get("walks", [])) < 100 or len(groups.get("bfs", [])) < 1000 or len(groups.get("volume", [])) < 10 \
-       or len(groups.get("iter", [])) < 500:
+       or len(groups.get("iter", [])) < 500 or len(groups.get("family", [])) < 1000:
         raise MachineryError("plan generation produced too few plans: %s" % {k: len(v) for k, v in groups.items()})
     ctx.sample(dict(kind="index_plan", ops=plan_ops(groups["walks"][0])))
     ctx.sample(dict(kind="index_volume_plan", ops=plan_ops(groups["volume"][0])))
-    for label in ("iter", "bfs", "walks", "volume"):
+    for label in ("iter", "family", "bfs", "walks", "volume"):
         replay_index(ctx, groups[label], label)
     # (V) file-info
     fplans = file_info(ctx, 24 if q else 160, 6 if q else 40, 12000 if q else 120000)
